@@ -66,7 +66,68 @@ def mutants_of(path, base=REPO):
         elif isinstance(node, ast.Constant) and isinstance(node.value, int) and not isinstance(node.value, bool) and abs(node.value) <= 10:
             a, b = seg(lines, node)
             add("int_plus1", a, b, str(node.value + 1), node.lineno)
+    if EXTRA_OPS:
+        out = []  # the second operator set is sampled on its own
+        SWAP = {"left": "right", "right": "left", "_limit": "_offset", "_offset": "_limit", "start": "end", "end": "start", "_wheres": "_havings", "_havings": "_wheres",
+                "quote_char": "alias_quote_char", "alias_quote_char": "quote_char", "secondary_quote_char": "quote_char"}
+        for node in ast.walk(tree):
+            if isinstance(node, ast.Call):
+                for kw in node.keywords:
+                    if kw.arg is None:
+                        continue
+                    # remove one keyword argument (with its comma)
+                    va, vb = seg(lines, kw.value)
+                    a = src.rfind(kw.arg, 0, va)
+                    b = vb
+                    rest = src[b:b + 40]
+                    m = re.match(r"\s*,\s*", rest)
+                    if m:
+                        b += m.end()
+                    else:
+                        head = src[:a]
+                        m2 = re.search(r",\s*$", head)
+                        if m2:
+                            a = m2.start()
+                    add("drop_kwarg", a, b, "", node.lineno)
+                if len(node.args) >= 2 and not any(isinstance(x, ast.Starred) for x in node.args[:2]):
+                    a0, b0 = seg(lines, node.args[0])
+                    a1, b1 = seg(lines, node.args[1])
+                    if src[a0:b0] != src[a1:b1]:
+                        add("swap_args", a0, b1, src[a1:b1] + src[b0:a1] + src[a0:b0], node.lineno)
+                f = node.func
+                if ((isinstance(f, ast.Name) and f.id in ("copy", "deepcopy")) or (isinstance(f, ast.Attribute) and f.attr in ("copy", "deepcopy") and isinstance(f.value, ast.Name) and f.value.id == "copy")) and len(node.args) == 1 and not node.keywords:
+                    a, b = seg(lines, node)
+                    xa, xb = seg(lines, node.args[0])
+                    add("drop_copy", a, b, src[xa:xb], node.lineno)
+                if isinstance(f, ast.Attribute) and f.attr == "copy" and not node.args and not node.keywords:
+                    a, b = seg(lines, node)
+                    xa, xb = seg(lines, f.value)
+                    add("drop_copy", a, b, src[xa:xb], node.lineno)
+            elif isinstance(node, (ast.FunctionDef, ast.AsyncFunctionDef)):
+                for d in node.decorator_list:
+                    if isinstance(d, ast.Name) and d.id in ("builder", "ignore_copy"):
+                        a, b = seg(lines, d)
+                        add("drop_decorator", a - 1, b, "", d.lineno)
+            elif isinstance(node, ast.AugAssign):
+                ta, tb = seg(lines, node.target)
+                va, vb = seg(lines, node.value)
+                add("aug_to_assign", ta, vb, src[ta:tb] + " = " + src[va:vb], node.lineno)
+            elif isinstance(node, (ast.List, ast.Tuple, ast.Set)) and len(node.elts) >= 2 and isinstance(getattr(node, "ctx", ast.Load()), ast.Load):
+                pa, pb = seg(lines, node.elts[-2])
+                la, lb = seg(lines, node.elts[-1])
+                add("drop_last_elem", pb, lb, "", node.lineno)
+            elif isinstance(node, ast.Attribute) and node.attr in SWAP and isinstance(node.ctx, ast.Load):
+                a, b = seg(lines, node)
+                va, vb = seg(lines, node.value)
+                add("swap_attr", a, b, src[va:vb] + "." + SWAP[node.attr], node.lineno)
+            elif isinstance(node, ast.Return) and node.value is not None and isinstance(node.value, ast.IfExp):
+                a, b = seg(lines, node.value)
+                ba, bb = seg(lines, node.value.body)
+                add("ifexp_body_only", a, b, src[ba:bb], node.lineno)
     return src, out
+
+
+EXTRA_OPS = "--extra-ops" in sys.argv
 
 
 def all_mutants(base=REPO):
